@@ -103,6 +103,13 @@ Theorem c14_hash_covers_nested :
 Proof. exact (conj item_hash_group_lemma hash_covers_nested_lemma). Qed.
 Print Assumptions c14_hash_covers_nested.
 
+(* The value is mixed in with all its bits: with the same running hash, two different values --
+   in particular the 32-bit hashes of two nested definitions that differ in any bit, high or low --
+   give different results, so a parent with a single nested group inherits every distinction. *)
+Theorem c14_rothash_value_injective : forall r v1 v2, rothash r v1 = rothash r v2 -> v1 = v2.
+Proof. exact rothash_value_injective_lemma. Qed.
+Print Assumptions c14_rothash_value_injective.
+
 (* Non-vacuity: an expanded schema with six stored definitions, among them two DIFFERENT
    definitions of one count field (and one reused unchanged, with a nested group), meets the
    hypotheses of c14_sound_if_injective. *)
